@@ -91,7 +91,7 @@ fn seam_selfcheck() -> Result<(), String> {
     if res.getrandom_calls != 1 {
         return Err(format!("expected exactly 1 getrandom call for the thread's RandomState, saw {}", res.getrandom_calls));
     }
-    if res.delivered() != vec![b"first\n".to_vec(), b"second line\nthird\n".to_vec(), b"slept 1".to_vec()] {
+    if res.delivered() != vec![format!("meta 18 {}", follow::FOLLOW_PATH).into_bytes(), b"first\n".to_vec(), b"second line\nthird\n".to_vec(), b"slept 1".to_vec()] {
         return Err(format!("std reads / clock through the seam returned {:?}", res.delivered().iter().map(|d| String::from_utf8_lossy(d).into_owned()).collect::<Vec<_>>()));
     }
     if res.sleeps != 1 {
@@ -323,8 +323,12 @@ fn known_match<'a>(known: &'a [Known], prop: &str, class: &str, features: &J) ->
 
 fn run_main(args: &[String]) -> i32 {
     let id = &args[0];
-    let tier = args.get(1).map(|s| s.as_str()).unwrap_or("quick").to_owned();
-    let tier = std::env::var("VERIF_TIER").ok().filter(|t| t == "quick" || t == "thorough").unwrap_or(tier);
+    // the tier named on the command line wins; VERIF_TIER only fills in when none is given
+    let tier = match args.get(1).map(|s| s.as_str()) {
+        Some("quick") => "quick".to_owned(),
+        Some("thorough") => "thorough".to_owned(),
+        _ => std::env::var("VERIF_TIER").ok().filter(|t| t == "quick" || t == "thorough").unwrap_or_else(|| "quick".to_owned()),
+    };
     let thorough = tier == "thorough";
     let prop = find_prop(id);
     let seed = env_seed();
